@@ -37,6 +37,10 @@ type Op struct {
 	Key  int    `json:"key,omitempty"`  // index into the key alphabet (taken modulo Keys)
 	Var  int    `json:"var,omitempty"`  // ecache: which of the colliding PKs (modulo NVariants)
 	Fail bool   `json:"fail,omitempty"` // g: the create function, if it gets called by this op, fails
+	// Buf (ecache, g/r): 0 = the PK is a fresh slice; b in 1..NBufs = the PK is the harness' reusable key
+	// buffer b: its content is overwritten with this call's key text and the same backing array is passed
+	// again, so PKs that the cache stored from earlier calls through this buffer change behind its back.
+	Buf int `json:"buf,omitempty"`
 	// Nested (g only): a short program (at most MaxNested calls of g/r/c) which the create function, if it
 	// gets called by this op, executes on the same cache (single goroutine, the cache lock is not held
 	// while the create function runs) before it returns its own outcome. The key of a nested g/r is the
@@ -45,6 +49,9 @@ type Op struct {
 	// which no such key exists is skipped. A nested g may carry its own Nested up to MaxDepth levels.
 	Nested []Op `json:"nested,omitempty"`
 }
+
+// NBufs is the number of reusable PK buffers of the ecache shape.
+const NBufs = 2
 
 // Limits of the re-entrant programs.
 const (
@@ -85,6 +92,9 @@ type Info struct {
 	EvictAfterClear      bool // ... and an eviction after that insertion
 	CollideHit           bool // ecache: hit through a PK different from the stored one
 	CollideDelete        bool // ecache: entry deleted through / evicted while created by a non-canonical PK
+	BufCalls             int  // ecache: calls whose PK was a reused buffer
+	MutatedLeft          bool // ecache: an entry left the cache whose stored PK had been overwritten with another key's text
+	MutatedEvicted       bool // ... by eviction
 	ExpiredReplaced      bool // expirable: stale item replaced
 	ExpiredRecreateFail  bool // expirable: stale item touched, re-creation failed
 	ExpiredEvicted       bool // expirable: a stale item left by eviction/Remove/Clear
@@ -131,6 +141,44 @@ type world struct {
 	lastErr error
 	nErr    int
 	lastIt  *item
+	bufs    [NBufs][]string // reusable PK buffers (ecache shape)
+}
+
+var bufNames = func() (n [NBufs + 1][3]string) {
+	for b := 1; b <= NBufs; b++ {
+		for l := 0; l < 3; l++ {
+			n[b][l] = fmt.Sprintf("buffer%d[:%d]", b, l)
+		}
+	}
+	return
+}()
+
+// pkFor builds the PK of a call: sel = variant + NVariants*buffer.
+func (w *world) pkFor(key, sel int) []string {
+	pk := pkOf(key, sel%NVariants)
+	b := sel / NVariants
+	if b == 0 {
+		return pk
+	}
+	if w.bufs[b-1] == nil {
+		w.bufs[b-1] = make([]string, 2)
+	}
+	buf := w.bufs[b-1]
+	copy(buf, pk) // overwrites what earlier calls (and the entries they stored) see
+	return buf[:len(pk)]
+}
+
+// pkName identifies a PK handed to a callback: a reusable buffer by identity (its content may have been
+// overwritten since the cache stored it), any other slice by content.
+func (w *world) pkName(pk []string) string {
+	if len(pk) > 0 && len(pk) <= 2 {
+		for b := range w.bufs {
+			if w.bufs[b] != nil && &pk[0] == &w.bufs[b][0] {
+				return bufNames[b+1][len(pk)]
+			}
+		}
+	}
+	return pkCanon(pk)
 }
 
 func (w *world) create(pk string) (int, error) {
@@ -179,9 +227,12 @@ func innerKey(pk []string) string { return strings.ToLower(strings.Join(pk, ""))
 
 func pkCanon(pk []string) string { return strings.Join(pk, "|") }
 
-func (c Case) pkRepr(key, vr int) string {
+func (c Case) pkRepr(key, sel int) string {
 	if c.Shape == ShapeECache {
-		return pkCanon(pkOf(key, vr))
+		if b := sel / NVariants; b > 0 {
+			return bufNames[b][len(pkOf(key, sel%NVariants))]
+		}
+		return pkCanon(pkOf(key, sel))
 	}
 	return keyName(key)
 }
@@ -210,19 +261,19 @@ func build(c Case, w *world) (*sut, error) {
 	case ShapeECache:
 		var cf lru.CreatePoolElemF[[]string, int]
 		if !c.NilCreate {
-			cf = func(pk []string) (int, error) { return w.create(pkCanon(pk)) }
+			cf = func(pk []string) (int, error) { return w.create(w.pkName(pk)) }
 		}
 		var df lru.OnDeleteElemF[[]string, int]
 		if !c.NoCB {
-			df = func(pk []string, v int) { w.dels = append(w.dels, del{pkCanon(pk), v}) }
+			df = func(pk []string, v int) { w.dels = append(w.dels, del{w.pkName(pk), v}) }
 		}
 		ch, err := lru.NewECache[[]string, string, int](c.Cap, innerKey, cf, df)
 		if err != nil {
 			return nil, err
 		}
 		return &sut{
-			get:    func(key, vr int) (int, error) { return ch.GetOrCreate(pkOf(key, vr)) },
-			remove: func(key, vr int) bool { return ch.Remove(pkOf(key, vr)) },
+			get:    func(key, sel int) (int, error) { return ch.GetOrCreate(w.pkFor(key, sel)) },
+			remove: func(key, sel int) bool { return ch.Remove(w.pkFor(key, sel)) },
 			clear:  func() int { return ch.Clear() },
 			walk:   walkOf(ch),
 		}, nil
@@ -271,7 +322,8 @@ func build(c Case, w *world) (*sut, error) {
 // entry of the reference LRU; the slice is kept in recency order, least recently used first.
 type entry struct {
 	key int
-	pk  string // canonical form of the PK stored at creation
+	pk  string // name of the PK stored at creation (content, or the identity of a reusable buffer)
+	sel int    // ecache: variant + NVariants*buffer of the creating call
 	val int
 	it  *item // expirable only
 }
@@ -332,6 +384,14 @@ func run(c Case, walk bool, info *Info) *vstat.Violation {
 		return -1
 	}
 	dropAt := func(i int) { m = append(m[:i], m[i+1:]...) }
+	// mutated: the PK stored with the entry is a reusable buffer that now spells another key
+	mutated := func(e entry) bool {
+		b := e.sel / NVariants
+		if b == 0 || w.bufs[b-1] == nil {
+			return false
+		}
+		return innerKey(w.bufs[b-1][:len(pkOf(e.key, e.sel%NVariants))]) != keyName(e.key)
+	}
 	fmtDels := func(d []del) string {
 		var b strings.Builder
 		b.WriteString("[")
@@ -472,7 +532,7 @@ func run(c Case, walk bool, info *Info) *vstat.Violation {
 	}
 
 	// insert does the model side of a successful creation and returns the expected delete callbacks.
-	insert := func(key int, pk string, val int, lenAtMiss int) []del {
+	insert := func(key int, pk string, sel int, val int, lenAtMiss int) []del {
 		var want []del
 		if len(m) >= c.Cap {
 			if lenAtMiss >= 0 && lenAtMiss < c.Cap {
@@ -489,8 +549,11 @@ func run(c Case, walk bool, info *Info) *vstat.Violation {
 			if victim.it != nil && victim.it.expired {
 				info.ExpiredEvicted = true
 			}
-			if c.Shape == ShapeECache && victim.pk != pkCanon(pkOf(victim.key, 0)) {
+			if c.Shape == ShapeECache && victim.sel%NVariants != 0 {
 				info.CollideDelete = true
+			}
+			if mutated(victim) {
+				info.MutatedLeft, info.MutatedEvicted = true, true
 			}
 			want = append(want, del{victim.pk, victim.val})
 			dropAt(0)
@@ -501,7 +564,7 @@ func run(c Case, walk bool, info *Info) *vstat.Violation {
 				info.EvictAfterClear = true
 			}
 		}
-		e := entry{key: key, pk: pk, val: val}
+		e := entry{key: key, pk: pk, sel: sel, val: val}
 		if c.Shape == ShapeExpirable {
 			e.it = w.lastIt
 		}
@@ -576,7 +639,7 @@ func run(c Case, walk bool, info *Info) *vstat.Violation {
 				if got != w.nextVal {
 					return vstat.V("lru:expired-wrong-value", "%s: stale #%d must be replaced by the new #%d, got #%d", where(), stale.val, w.nextVal, got), true
 				}
-				want := append([]del{{stale.pk, stale.val}}, insert(key, pk, w.nextVal, lenAtMiss)...)
+				want := append([]del{{stale.pk, stale.val}}, insert(key, pk, vr, w.nextVal, lenAtMiss)...)
 				if v := wantDels("lru:expired-callbacks", want, false); v != nil {
 					return v, true
 				}
@@ -615,7 +678,7 @@ func run(c Case, walk bool, info *Info) *vstat.Violation {
 			if v := wantDels("lru:hit-callbacks", nil, true); v != nil {
 				return v, true
 			}
-			if old.pk != pk {
+			if old.sel%NVariants != vr%NVariants {
 				info.CollideHit = true
 			}
 			dropAt(find(key))
@@ -652,7 +715,7 @@ func run(c Case, walk bool, info *Info) *vstat.Violation {
 			if got != w.nextVal {
 				return vstat.V("lru:miss-wrong-value", "%s: created #%d but GetOrCreate returned #%d", where(), w.nextVal, got), true
 			}
-			want := insert(key, pk, w.nextVal, lenAtMiss)
+			want := insert(key, pk, vr, w.nextVal, lenAtMiss)
 			if v := wantDels("lru:evict-callbacks", want, true); v != nil {
 				return v, true
 			}
@@ -670,6 +733,9 @@ func run(c Case, walk bool, info *Info) *vstat.Violation {
 			want = append(want, del{e.pk, e.val})
 			if e.it != nil && e.it.expired {
 				info.ExpiredEvicted = true
+			}
+			if mutated(e) {
+				info.MutatedLeft = true
 			}
 		}
 		if v := wantDels("lru:clear-callbacks", want, false); v != nil {
@@ -690,6 +756,9 @@ func run(c Case, walk bool, info *Info) *vstat.Violation {
 	}
 	// functional side of one call of the list; stop = the model cannot follow any further
 	doOp := func(op Op, key, vr int, stack []int) (v *vstat.Violation, stop bool) {
+		if vr >= NVariants && (op.K == "g" || op.K == "r") {
+			info.BufCalls++
+		}
 		switch op.K {
 		case "g":
 			if v, stop := getOrCreate(key, vr, op.Fail, op.Nested, stack); v != nil || stop {
@@ -707,8 +776,11 @@ func run(c Case, walk bool, info *Info) *vstat.Violation {
 				if m[idx].it != nil && m[idx].it.expired {
 					info.ExpiredEvicted = true
 				}
-				if m[idx].pk != c.pkRepr(key, vr) {
+				if m[idx].sel%NVariants != vr%NVariants {
 					info.CollideDelete = true
+				}
+				if mutated(m[idx]) {
+					info.MutatedLeft = true
 				}
 				dropAt(idx)
 				info.RemoveHit++
@@ -799,7 +871,7 @@ func run(c Case, walk bool, info *Info) *vstat.Violation {
 			}
 			vr := 0
 			if c.Shape == ShapeECache {
-				vr = ((nop.Var % NVariants) + NVariants) % NVariants
+				vr = ((nop.Var%NVariants)+NVariants)%NVariants + NVariants*(((nop.Buf%(NBufs+1))+NBufs+1)%(NBufs+1))
 			}
 			if len(stack) >= MaxDepth {
 				nop.Nested = nil
@@ -850,7 +922,7 @@ func run(c Case, walk bool, info *Info) *vstat.Violation {
 			key := ((op.Key+shift)%nk + nk) % nk
 			vr := 0
 			if c.Shape == ShapeECache {
-				vr = ((op.Var % NVariants) + NVariants) % NVariants
+				vr = ((op.Var%NVariants)+NVariants)%NVariants + NVariants*(((op.Buf%(NBufs+1))+NBufs+1)%(NBufs+1))
 			}
 			if blind {
 				begin(func() string {
@@ -957,6 +1029,14 @@ func run(c Case, walk bool, info *Info) *vstat.Violation {
 	return nil
 }
 
+// pkShow describes the PK of a call; for a reusable buffer also the text written into it by the call.
+func pkShow(c Case, key, sel int) string {
+	if c.Shape == ShapeECache && sel >= NVariants {
+		return c.pkRepr(key, sel) + "←" + pkCanon(pkOf(key, sel%NVariants))
+	}
+	return c.pkRepr(key, sel)
+}
+
 func opString(c Case, op Op, key, vr int) string {
 	switch op.K {
 	case "g":
@@ -967,9 +1047,9 @@ func opString(c Case, op Op, key, vr int) string {
 		if len(op.Nested) > 0 {
 			out = "create→{" + nestedString(op.Nested) + "}→" + out[len("create→"):]
 		}
-		return fmt.Sprintf("GetOrCreate(%s, %s)", c.pkRepr(key, vr), out)
+		return fmt.Sprintf("GetOrCreate(%s, %s)", pkShow(c, key, vr), out)
 	case "r":
-		return fmt.Sprintf("Remove(%s)", c.pkRepr(key, vr))
+		return fmt.Sprintf("Remove(%s)", pkShow(c, key, vr))
 	case "c":
 		return "Clear()"
 	case "x":
@@ -991,6 +1071,9 @@ func nestedString(prog []Op) string {
 			fmt.Fprintf(&b, "GetOrCreate(key>=%d", op.Key)
 			if op.Var != 0 {
 				fmt.Fprintf(&b, " variant %d", op.Var)
+			}
+			if op.Buf != 0 {
+				fmt.Fprintf(&b, " in buffer %d", op.Buf)
 			}
 			if len(op.Nested) > 0 {
 				b.WriteString(", create→{" + nestedString(op.Nested) + "}")
@@ -1036,7 +1119,7 @@ func (c Case) Hash() uint64 {
 	var ops func(l []Op)
 	ops = func(l []Op) {
 		for _, o := range l {
-			x := uint64(o.K[0])
+			x := uint64(o.K[0]) | uint64(uint8(o.Buf))<<16
 			if o.Fail {
 				x |= 256
 			}
@@ -1092,6 +1175,9 @@ func (i Info) Classes(c Case) []string {
 	add(i.ClearNonEmpty > 0, "clear_nonempty")
 	add(i.CollideHit, "ecache_hit_via_other_pk")
 	add(i.CollideDelete, "ecache_delete_of_entry_created_via_other_pk")
+	add(i.BufCalls > 0, "ecache_pk_buffer_reused_by_caller")
+	add(i.MutatedLeft, "ecache_entry_left_after_its_stored_pk_was_overwritten")
+	add(i.MutatedEvicted, "ecache_entry_evicted_after_its_stored_pk_was_overwritten")
 	add(i.ExpiredReplaced, "expirable_stale_replaced")
 	add(i.ExpiredRecreateFail, "expirable_stale_recreation_failed")
 	add(i.ExpiredEvicted, "expirable_stale_left_by_evict_remove_clear")
@@ -1154,4 +1240,15 @@ func ReentrantAlphabet(keys int) []Op {
 		a = append(a, Op{K: "g", Key: k, Fail: true, Nested: []Op{{K: "g", Key: n}}})
 	}
 	return a
+}
+
+// BufferAlphabet is the exhaustive alphabet of the ecache shape with caller-reused PK buffers: per key
+// GetOrCreate/Remove through a fresh slice, through buffer 1 and (GetOrCreate only) through buffer 2.
+func BufferAlphabet(keys int) []Op {
+	var a []Op
+	for k := 0; k < keys; k++ {
+		a = append(a, Op{K: "g", Key: k}, Op{K: "g", Key: k, Fail: true}, Op{K: "r", Key: k},
+			Op{K: "g", Key: k, Buf: 1}, Op{K: "r", Key: k, Buf: 1}, Op{K: "g", Key: k, Buf: 2})
+	}
+	return append(a, Op{K: "c"})
 }
